@@ -28,12 +28,18 @@ def _compute(tier, seed):
         recs += r.records
     if tier == 'quick':
         recs = [x for x in recs if len(x['posterior']['ids']) == 1 or int(digest(x), 16) % 4 == seed % 4]
+    # (Controller_unmeasured.cfg: three individuals, one of them without any usable measurement -- all of its datasets)
+    ru = tlc.run('Controller', 'Controller_unmeasured.cfg')
+    runs.append(ru.summary())
+    unmeasured = list(ru.records)
+    if tier == 'quick':
         # three individuals (one extra row): positions in the parameter vector and per-individual regimens beyond two
         r3 = tlc.run('Controller', 'Controller_three.cfg')
         runs.append(r3.summary())
         recs += [x for x in r3.records if len(x['posterior']['ids']) == 3 and int(digest(x), 16) % 3 == seed % 3]
     else:
         recs = [x for x in recs if len(x['data']) < 8 or int(digest(x), 16) % 40 == seed % 40]
+    recs += unmeasured
     from . import replay_controller
     results = pmap(replay_controller.replay_case, [(rec, MODES[(i + seed) % 3] if len(rec['posterior']['ids']) > 1 else m, seed)
                                                    for i, rec in enumerate(recs)
